@@ -151,27 +151,37 @@ def runTrace (P : LParams) : IO UInt32 := do
     let reraise := parseBool (get kv "reraise")
     let infoOn := get kv "lvl" != "warning"
     let script := (get kv "script").splitOn ","
-    let sim := script.foldl (Sim.op P logger reraise infoOn) {}
+    -- two threads raising at once (`dsig`): which one enters first is the schedule's choice — one branch each
+    let sims : List Sim := script.foldl (fun bs op =>
+      match op.splitOn ":" with
+      | "dsig" :: _ :: nt :: nm :: _ =>
+        match Sig.ofName nt, Sig.ofName nm with
+        | some st, some sm => bs.flatMap fun b => [b.signal P sm "main" logger reraise infoOn, b.signal P st "extra" logger reraise infoOn]
+        | _, _ => bs
+      | _ => bs.map fun b => Sim.op P logger reraise infoOn b op) [{}]
     -- ran out of script without a terminal op = return from main
-    let sim := if sim.final.isNone && !sim.parked then { sim with life := sim.life.step P .exit } else sim
+    let sims := sims.map fun sim => if sim.final.isNone && !sim.parked then { sim with life := sim.life.step P .exit } else sim
     t := { t with cases := t.cases + 1 }
-    let mut bad : List String := []
-    if sim.unspecified then
-      t := { t with unspecified := t.unspecified + 1 }
-    else
-      if sim.status != get ob "status" then
-        bad := bad ++ [s!"field=status model={sim.status} impl={get ob "status"}"]
-      let nn := s!"{sim.info}/{sim.crit}"
-      if nn != get ob "notices" then bad := bad ++ [s!"field=notices model={nn} impl={get ob "notices"}"]
-      if toString sim.cont != get ob "cont" then bad := bad ++ [s!"field=cont model={sim.cont} impl={get ob "cont"}"]
-    let qm := if sim.qs.isEmpty then "-" else ";".intercalate sim.qs
-    if qm != get ob "q" then bad := bad ++ [s!"field=q model={qm} impl={get ob "q"}"]
-    let mm := if sim.ms.isEmpty then "-" else ";".intercalate sim.ms
-    if mm != get ob "mask" then bad := bad ++ [s!"field=mask model={mm} impl={get ob "mask"}"]
+    let check (sim : Sim) : List String := Id.run do
+      let mut bad : List String := []
+      if !sim.unspecified then
+        if sim.status != get ob "status" then
+          bad := bad ++ [s!"field=status model={sim.status} impl={get ob "status"}"]
+        let nn := s!"{sim.info}/{sim.crit}"
+        if nn != get ob "notices" then bad := bad ++ [s!"field=notices model={nn} impl={get ob "notices"}"]
+        if toString sim.cont != get ob "cont" then bad := bad ++ [s!"field=cont model={sim.cont} impl={get ob "cont"}"]
+      let qm := if sim.qs.isEmpty then "-" else ";".intercalate sim.qs
+      if qm != get ob "q" then bad := bad ++ [s!"field=q model={qm} impl={get ob "q"}"]
+      let mm := if sim.ms.isEmpty then "-" else ";".intercalate sim.ms
+      if mm != get ob "mask" then bad := bad ++ [s!"field=mask model={mm} impl={get ob "mask"}"]
+      return bad
+    let sim := (sims.find? fun b => (check b).isEmpty).getD (sims.headD {})
+    if sim.unspecified then t := { t with unspecified := t.unspecified + 1 }
+    let bad := check sim
     for b in bad do
       IO.println s!"MISMATCH case={id} {b}"
     t := { t with mismatches := t.mismatches + bad.length }
-    let cls := if sim.classes.isEmpty then "none" else ",".intercalate sim.classes
+    let cls := (if sim.classes.isEmpty then "none" else ",".intercalate sim.classes) ++ (if sims.length > 1 then ",two-entrants" else "")
     let acts := if sim.acts.isEmpty then "-" else ";".intercalate sim.acts
     IO.println s!"TRACE {id} classes={cls} actions={acts} predicted={sim.status} notices={sim.info}/{sim.crit} spawned={sim.life.spawned} joined={sim.life.joined} atexits={sim.life.atexits.length}"
   IO.println s!"DONE cases={t.cases} mismatches={t.mismatches} unspecified={t.unspecified}"
